@@ -19,6 +19,10 @@ NONLREC = {
     'join_of_rule': [('start', S(JOIN(T(','), C('r'), True), EOF_)), ('r', A(S(T('a'), CUT, OPT(T('b'))), T('b')))],
     'failing_rule_memo': [('start', A(S(C('r'), T('x')), S(C('q'), T('y')), P('.+'))), ('r', S(T('a'), T('b'))), ('q', A(C('r'), T('a')))],
 }
+# a left-recursive component with two cycles through one leader: the non-leader members are retried at the same position while the
+# seed grows (needs >= 3 growth steps that take different branches, e.g. abxcy)
+TWO_CYCLES = [('start', S(C('e'), EOF_)), ('e', A(S(C('pb'), T('x')), S(C('pc'), T('y')), T('a'))), ('pb', S(C('e'), T('b'))), ('pc', S(C('e'), T('c')))]
+TWO_CYCLES_CUT = [('start', S(C('e'), EOF_)), ('e', A(S(C('pb'), T('x'), CUT), S(C('pc'), T('y'), CUT), T('a'))), ('pb', S(C('e'), T('b'))), ('pc', S(C('e'), T('c')))]
 VARIANTS = {
     'nomemo': {'memoization': False},
     'memo1': {'perlinememos': 0.01},
@@ -82,6 +86,16 @@ def plan(tier, seed):
                 obs.append(Ob(name=f'{nm}_{vn}_L{n}', factory='vt.props.c04:make_variant', spec=spec,
                               params=[(f'c{i}', 0, UNI) for i in range(n)], budget=BUDGET[n], group=f'A:{vn}',
                               require_tags=('ok',) if n == 3 and nm not in ('mutual', 'cut_in_leftrec') else ()))
+    # two-cycle component at length 5 over its own alphabet (stated: not all of Unicode at this length)
+    alpha = sorted({ord(c) for c in 'abcxyq'})
+    for nm, rs in (('two_cycles', TWO_CYCLES), ('two_cycles_cut', TWO_CYCLES_CUT)):
+        for vn in ('memo1', 'noprune'):
+            for n in ((3, 5) if tier == 'quick' else (3, 4, 5, 6)):
+                # every accepted text starts with the operand 'a'; the other positions range over the operator alphabet + one other character
+                pre = ' and '.join(['c0 == 97'] + ['(' + ' or '.join(f'c{i} == {c}' for c in alpha if c != 97) + ')' for i in range(1, n)]) if n >= 4 else ''
+                spec = {'grammar': nm, 'rules': rs, 'n': n, 'settings': SETTINGS, 'ref': False, 'variants': [VARIANTS[vn]], 'warm': WARM + ['abx', 'acy', 'abxbx'], 'trace': False}
+                obs.append(Ob(name=f'{nm}_{vn}_L{n}', factory='vt.props.c04:make_variant', spec=spec, params=[(f'c{i}', 0, UNI) for i in range(n)],
+                              budget={3: 300, 4: 600, 5: 400 if tier == 'quick' else 1500, 6: 3000}[n], group=f'A:{vn}', extra_pre=pre))
     # B: BoundedDict step semantics ; C: MemoKey
     for k in ((3,) if tier == 'quick' else (3, 4)):
         obs.append(Ob(name=f'B_boundeddict_k{k}', factory='vt.props.c04:make_boundeddict', spec={'k': k},
